@@ -64,6 +64,42 @@ def c15_jobs(rng, quick, nhist, nenc):
         for k, j in enumerate(rep_jobs):
             hid += 1
             jobs.append(dict(j, hid=hid, proj="digest", hist=h + (k % nsub), skey=""))
+    # variation block: the same content with ONE argument varied from call to call (level, mode, percentage, layers, security level, option mix,
+    # colour scheme) - state remembered under a key that leaves an argument out shows up as a result that differs from the fresh-process one
+    h = nhist + nsub
+    var = []
+    for c in ("01234567", "HELLO WORLD", "hello, world", "1234567890123456789012345"):
+        for level in range(4):
+            for mode in range(4):
+                var.append(gen.enc("qr", onedim.U(c), (level, mode)))
+        for mode in range(4):
+            for level in range(4):
+                var.append(gen.enc("qr", onedim.U(c), (level, mode)))
+    for c in (b"Aztec 123", b"\x80\x81 binary", b"x" * 40):
+        for pct in (0, 23, 33, 50, 90):
+            for req in (0, -2, -4, 2, 3, 4, 5, 9):
+                var.append(gen.enc("aztec", list(c), (pct, req)))
+    for c in ("PDF417 text 123456", "abc", ""):
+        for lv in list(range(9)) + list(range(8, -1, -1)):
+            var.append(gen.enc("pdf", onedim.U(c), (lv,)))
+    for sym, c in (("c39", "CODE 39"), ("c93", "CODE 93"), ("c39", "a+b"), ("c93", "a+b")):
+        for cs in (0, 1, 0):
+            for full in (0, 1, 0):
+                var.append(gen.enc(sym, onedim.U(c), (cs, full)))
+    for c in ("123456", "00", "98765432"):
+        for il in (0, 1, 0, 1):
+            var.append(gen.enc("25", onedim.U(c), (il,)))
+    for api in ("Encode", "EncodeWithoutChecksum", "Encode"):
+        var.append(gen.enc("c128", onedim.U("Code128 12345678"), (), api=api))
+    colour = []
+    for (sym, c, p) in gen.SAMPLES:
+        for k in (0, 3, 5, 0):
+            colour.append(gen.enc(sym, c if isinstance(c, (list, bytes)) else onedim.U(c), p, api="EncodeWithColor", scheme=C11.scheme(k)))
+            colour[-1]["skey"] = json.dumps(colour[-1]["scheme"], sort_keys=True)
+            colour.append(gen.enc(sym, c if isinstance(c, (list, bytes)) else onedim.U(c), p))
+    for j in var + colour:
+        hid += 1
+        jobs.append(dict(j, hid=hid, proj="digest", hist=h, skey=j.get("skey", ""), mustshot=True))
     return jobs
 
 
@@ -91,14 +127,16 @@ def run(tier):
     rng = chk.rng
     nhist, nenc = (3, 250) if quick else (30, 900)
     jobs = c15_jobs(rng, quick, nhist, nenc)
-    nhist += 8 if quick else 16
+    nhist += (8 if quick else 16) + 1
     # mutation pass needs event indices: run once to learn which aztec encodes succeeded (inputs only), then run the full history in a fresh process
     probe = vlib.run_drive(drive, jobs, chk.work, name="probe")
     full = jobs + add_mutations(probe, jobs)
     evs = vlib.run_drive(drive, full, chk.work, name="hist")
     # one-shots: the same arguments in freshly started processes (cold caches, new map seeds), one process per encode
     enc = [e for e in evs if e["op"] == "encode"]
-    shots = rng.sample(enc, min(len(enc), 50 if quick else 800))
+    must = [e for e in enc if e.get("mustshot")]
+    rest = [e for e in enc if not e.get("mustshot")]
+    shots = must + rng.sample(rest, min(len(rest), 50 if quick else 800))
     oneshots = []
     for k, e in enumerate(shots):
         sub = vlib.run_drive(drive, [dict(onedim.strip(e), hid=0)], chk.work, name="shot")
